@@ -81,3 +81,18 @@ def unit(pid):
         O.append(core.Obl('%s/sdrz/rate_law' % pid, 'open', 'extraction', 0.0, detail='closed-form lambda statement not found'))
     for o in O: o.pop('cex_raw', None)
     return res
+
+
+def unit_admissible():
+    """C17: states of the reaction zone for 0 <= lambda <= 1: positive pressure and density, particle velocity between 0 and D, pressure and density fall monotonically from the spike to the CJ state"""
+    res = {'obligations': [], 'functions': functions(), 'engine_errors': []}; O = res['obligations']
+    try: F, lt, xr, hy, obj = states()
+    except Unsupported as u_:
+        O.append(core.Obl('C17/sdrz/extraction', 'open', 'extraction', 0.0, detail=str(u_)[:300])); return res
+    p, rho, u, c = F['pvec'], F['rhovec'], F['uvec'], F['csvec']; h = hy + [lam < 1]
+    for nm, goal, text in (('pressure>0', p > 0, 'pressure > 0'), ('density>0', rho > 0, 'density > 0'), ('velocity_in_[0,D]', sp.And(u >= 0, u <= D), '0 <= u <= D'),
+                           ('pressure_falls', sp.diff(p, lam) <= 0, 'd p / d lambda <= 0'), ('density_falls', sp.diff(rho, lam) <= 0, 'd rho / d lambda <= 0'), ('subsonic_zone', (D - u) <= c, 'D - u <= c: the reaction zone is subsonic relative to the front')):
+        o = core.prove_valid('C17/sdrz/%s' % nm, h, goal, goal_text=text)
+        if o['status'] == 'refuted': o['replay'] = NATIVE
+        o.pop('cex_raw', None); O.append(o)
+    return res
